@@ -32,14 +32,14 @@ EXHAUSTIVE_SUBSPACES = ["every entry of every symbolic tensor parameter of every
 ASSUMPTIONS = ["reference interpreter vf/ref.py is differentiated numerically (central differences + one Richardson step, tolerance 2e-5 of the abs-scale)"]
 FLOOR = {"ccp:pointer-fold-idx": 1, "cc:TorchTensorDotLayer": 1, "cc:TorchTuckerLayer": 1, "cc:TorchCPTLayer": 1, "sr:complex-lse-sum": 1, "sr:lse-sum": 1,
          "ccp:TorchLogSoftmaxParameter": 1, "p:IndexParameter": 1, "grad_entries_compared": 500, "flag_pairs_compared": 20, "input-gradient": 1,
-         "gradcheck": 1, "zero-boundary": 1}
+         "gradcheck": 1, "zero-boundary": 1, "tiny-values": 1}
 
 
 def plan(tier, seed):
     n = 5 if tier == "quick" else 90
     cases = []
     for k in range(n):
-        for kind in ("base", "base-mono", "base-complex", "square", "sq-conj-int", "mul-int", "multiply", "index", "zero-boundary"):
+        for kind in ("base", "base-mono", "base-complex", "square", "sq-conj-int", "mul-int", "multiply", "index", "zero-boundary", "tiny-exp"):
             cases.append({"kind": kind, "k": k, "seed": seed})
     cases.append({"kind": "gradcheck", "k": 0, "seed": seed})
     return cases
@@ -81,6 +81,11 @@ def build(case):
             in_layers = {(s1 if l is s0 else l): [(s1 if i is s0 else i) for i in sc.layer_inputs(l)] for l in sc.layers if sc.layer_inputs(l)}
             sc = Circuit(layers, in_layers, [(s1 if o is s0 else o) for o in sc.outputs])
         return rng, sc, meta["domains"], "sum-product", mono
+    if kind == "tiny-exp":
+        # exp-parameterised weights driven to about exp(-42): tiny but non-zero values in log space
+        cfg = gen.GenCfg(**small, monotonic=True, weight_kinds=("exp",), kinds=("embedding", "cat"), mixing_prob=0.0)
+        sc, meta = gen.gen_circuit(rng, cfg)
+        return rng, sc, meta["domains"], "complex-lse-sum", False
     if kind == "zero-boundary":
         cfg = gen.GenCfg(**small, kinds=("embedding", "cat"), cat_modes=("logits", "probs_softmax"))
         sc, meta = gen.gen_circuit(rng, cfg)
@@ -101,6 +106,8 @@ def semiring_loss_torch(y, wts, sr, part="re"):
         return (y * w).sum()
     if sr == "lse-sum":
         return (y * w).sum()  # loss on log-values
+    if part == "logre":  # loss on the real part of the complex log-values: sum w * log|c|
+        return (y.real * w).sum()
     z = torch.exp(y)  # complex-lse: back to linear space (holomorphic), then real / imaginary part
     return ((z.real if part == "re" else z.imag) * w).sum()
 
@@ -110,6 +117,8 @@ def semiring_loss_ref(r, wts, sr, part="re"):
         return float(np.real((r * wts).sum()))
     if sr == "lse-sum":
         return float((np.log(np.real(r)) * wts).sum())
+    if part == "logre":
+        return float((np.log(np.abs(r)) * wts).sum())
     return float(((np.real(r) if part == "re" else np.imag(r)) * wts).sum())
 
 
@@ -158,6 +167,9 @@ def run_case(case) -> Result:
     wshape = (X.shape[0], O, K) if X is not None else (O, K)
     wts = loss_weights(nrng, wshape)
     parts = ["re", "im"] if sr == "complex-lse-sum" else ["re"]
+    if case["kind"] == "tiny-exp":
+        parts = ["logre"]
+        res.features.add("tiny-values")
     vseed = rng.getrandbits(32)
     vcls = "posonly" if mono else rng.choice(["normal", "normal", "small"])
     # all symbolic leaves of the pipeline (learnable)
@@ -169,6 +181,7 @@ def run_case(case) -> Result:
     cont_cols = [v for v, d in rdom.items() if d[0] == "cont"] if rdom else []
     grads = {}
     fd_done = False
+    base_comp = None
     for fold, opt in C.FLAGS:
         tag = C.flag_name(fold, opt)
         comp = C.new_compiler(sr, fold, opt)
@@ -178,6 +191,13 @@ def run_case(case) -> Result:
         for c in circuits:
             res.features |= structs.compiled_features(comp.get_compiled_circuit(c))
         tie.revalue(comp, root, np.random.default_rng(vseed), vcls)
+        if case["kind"] == "tiny-exp":
+            tr = np.random.default_rng(vseed + 2)
+            for c in circuits:
+                for _, _, pg in tie.circuit_params(c):
+                    for n in pg.nodes:
+                        if isinstance(n, P.TensorParameter) and any(isinstance(q, P.ExpParameter) for q in pg.node_outputs(n)):
+                            tie.write_leaf(comp, n, tr.normal(-42.0, 1.0, size=n.shape))
         if case["kind"] == "zero-boundary":
             res.features.add("zero-boundary")
             zr = np.random.default_rng(vseed + 1)
@@ -186,6 +206,12 @@ def run_case(case) -> Result:
                 if tie.leaf_domains(next(c for c in circuits if n in tie.circuit_leaves(c)[0])).get(n) == "any":
                     v[zr.random(size=v.shape) < 0.3] = 0.0
                     tie.write_leaf(comp, n, v)
+        # tie the valuation symbol by symbol to the first compiler (frozen, randomly initialised
+        # tensors are not touched by revalue and would otherwise differ between compilers)
+        if base_comp is None:
+            base_comp = comp
+        else:
+            tie.copy_valuation(base_comp, comp, root)
         leaf = tie.leaf_reader(comp)
         if sr == "lse-sum" and not all(C.monotone_ok(c, comp) for c in circuits):
             return res
@@ -231,6 +257,8 @@ def run_case(case) -> Result:
             # hold the same values, written from the same seed)
             if not fd_done or True:
                 scale = float(np.abs(a0 * np.abs(wts)).sum()) + 1e-12
+                if part == "logre":
+                    scale = float(np.abs(wts).sum()) + 1e-12
                 if (fold, opt) == (False, False):
                     for n in leaves:
                         if not comp.state.has_compiled_parameter(n):
